@@ -2953,8 +2953,8 @@ fn main() {
             total.merge(rep);
         }
         if want("participant") {
-            let n = args.by_tier(3_000u64, 150_000u64);
-            let mut rep = par_cases(th, args.seed ^ 0x66, n, args.budget(60, 180), |_i, s, r| {
+            let n = args.by_tier(3_000u64, 60_000u64);
+            let mut rep = par_cases(th, args.seed ^ 0x66, n, args.budget(60, 150), |_i, s, r| {
                 participant_case(s, r);
             });
             rep.samples.truncate(2);
@@ -2963,8 +2963,8 @@ fn main() {
         if want("coord-threads") {
             // every case spawns 3-6 OS threads of its own
             let outer = (th / 3).max(1);
-            let n = args.by_tier(160u64, 12_000u64);
-            let mut rep = par_cases(outer, args.seed ^ 0x77, n, args.budget(30, 300), |_i, s, r| {
+            let n = args.by_tier(160u64, 6_000u64);
+            let mut rep = par_cases(outer, args.seed ^ 0x77, n, args.budget(30, 200), |_i, s, r| {
                 coord_threads_case(s, r);
             });
             rep.samples.truncate(2);
